@@ -814,10 +814,10 @@ def make_world(layout: str, origin_vertex: bool = False) -> dict:
 
 def filler(i: int) -> tuple[bytes, int]:
     """Deterministic content + version for the lumps that have no structured view."""
-    n = [0, 5, 12, 33, 64, 7][i % 6] if i % 9 else 0
+    n = [5, 12, 33, 64, 7][i % 5] if i % 4 == 1 else 0   # a handful of non-empty view-less lumps
     data = hashlib.sha256(b'lump%d' % i).digest() * 3
-    if i % 4 == 1:
-        data = data[:11] + bytes(40) + data[11:]  # some compressible content
+    if i % 8 == 1:
+        data = data[:3] + bytes(40) + data[3:]  # some compressible content
     return data[:n], (i % 3)
 
 
